@@ -246,6 +246,10 @@ def gen_world(rng, ntorrents=None, allow_shared=True, empties=False, export_heav
         scan_roots = [(nm,) for nm in [b"media", b"media2", b"media22"][:nscan]]     # textual prefixes of one another, not ancestors
     else:
         scan_roots = [(b"scan%d" % i,) for i in range(nscan)]
+    if rng2.random() < 0.1:
+        # directory arguments whose names are not valid UTF-8 (a Latin-1 name, a stray continuation byte)
+        w.export = (b"export-\xe9t\xe9",)
+        scan_roots = [(s[0] + b"\xff",) if k == 0 else s for k, s in enumerate(scan_roots)]
     for s in scan_roots:
         w.put_dir(s)
     w.scans = list(scan_roots)
@@ -304,6 +308,11 @@ def gen_world(rng, ntorrents=None, allow_shared=True, empties=False, export_heav
                 cands.append(p)
                 if rng.random() < 0.15:
                     w.put_link(fresh_under(rng.choice(scan_roots), leaf), p)   # hard-linked duplicate
+            # a copy under a name that is not valid UTF-8 (paths are byte strings all the way)
+            if rng2.random() < 0.08:
+                rawp = tuple(list(rng2.choice(scan_roots)) + [b"\xff\xfe_" + leaf[:40]])
+                if w.free(rawp):
+                    w.put_file(rawp, f.content if rng2.random() < 0.6 else f.content[::-1])
             # a few wrong-length neighbours with the same name
             if rng.random() < 0.2:
                 w.put_file(fresh_under(rng.choice(scan_roots), leaf), f.content + b"x")
@@ -353,6 +362,8 @@ def gen_world(rng, ntorrents=None, allow_shared=True, empties=False, export_heav
         w.put_file(tuple(list(w.export) + [b"stray.txt"]), b"stray")
     w.resize = rng.random() < 0.35
     w.threads = rng.choice([0, 1, 1, 2, 3, 8])
+    if rng2.random() < 0.12:
+        w.notes["spell"] = rng2.choice(["slash", "dot", "dslash"])      # how runlib spells the directory arguments
     return w
 
 
